@@ -34,7 +34,9 @@ func C19_V2_History() {
 	}
 	p := vNewPool(n, vLenVector(n, 1))
 	pool := NewNodePool()
-	sql, err := NewInMemorySqliteDb(pool)
+	// natively every case gets its own database file (the in-memory database of NewInMemorySqliteDb is
+	// shared by all connections of a process); in the executor the constructor is a stub
+	sql, err := NewSqliteDb(pool, SqliteDbOptions{Path: vTempDir()})
 	vAssert(err == nil, "c19:sqlite")
 	opts := DefaultTreeOptions()
 	opts.HeightFilter = 0
@@ -48,29 +50,44 @@ func C19_V2_History() {
 	tree := NewTree(sql, pool, opts)
 	work := &vModel{}
 	var ref *rNode
+	// profile 0: every version applies any normal-form write set (per key: nothing, Set, Remove if present);
+	// profile 1: one more version, but versions after the first apply at most one write
+	profile := vChoice("profile", 2)
+	if profile == 1 {
+		maxV++
+	}
 	nv := 1 + vChoice("nversions", maxV)
+	doWrite := func(i, kind int) {
+		switch kind {
+		case 1:
+			val := vBytes("v", 1)
+			upd, err := tree.Set(p.keys[i], val)
+			vAssert(err == nil, "c19:set-err")
+			vAssert(upd == work.present[i], "c19:set-updated-flag")
+			work.present[i], work.vals[i] = true, val
+			ref, _ = rSet(ref, 2*i, p.keys[i], val)
+		case 2:
+			if !work.present[i] {
+				return // the removal of a missing key is not a write in normal form
+			}
+			// (the value returned by v2's Remove is not part of C19; it is nil because the node is
+			// recycled before its value is read — noted in DESIGN.md, not asserted here)
+			_, removed, err := tree.Remove(p.keys[i])
+			vAssert(err == nil, "c19:remove-err")
+			vAssert(removed, "c19:remove-flag")
+			work.present[i], work.vals[i] = false, nil
+			ref, _, _, _, _ = rRemove(ref, 2*i)
+		}
+	}
 	for v := int64(1); v <= int64(nv); v++ {
-		// normal form: at most one write or removal per key per version
-		for i := 0; i < n; i++ {
-			switch vChoice("write", 3) {
-			case 1:
-				val := vBytes("v", 1)
-				upd, err := tree.Set(p.keys[i], val)
-				vAssert(err == nil, "c19:set-err")
-				vAssert(upd == work.present[i], "c19:set-updated-flag")
-				work.present[i], work.vals[i] = true, val
-				ref, _ = rSet(ref, 2*i, p.keys[i], val)
-			case 2:
-				if !work.present[i] {
-					continue // the removal of a missing key is not a write in normal form
-				}
-				// (the value returned by v2's Remove is not part of C19; it is nil because the node is
-				// recycled before its value is read — noted in DESIGN.md, not asserted here)
-				_, removed, err := tree.Remove(p.keys[i])
-				vAssert(err == nil, "c19:remove-err")
-				vAssert(removed, "c19:remove-flag")
-				work.present[i], work.vals[i] = false, nil
-				ref, _, _, _, _ = rRemove(ref, 2*i)
+		if profile == 1 && v > 1 {
+			c := vChoice("single", 2*n+1)
+			if c > 0 {
+				doWrite((c-1)%n, 1+(c-1)/n)
+			}
+		} else {
+			for i := 0; i < n; i++ {
+				doWrite(i, vChoice("write", 3))
 			}
 		}
 		hash, ver, err := tree.SaveVersion()
